@@ -31,6 +31,53 @@ NOT_FUNCS = {"np.bitwise_not", "numpy.bitwise_not", "np.logical_not",
              "numpy.logical_not", "np.invert", "numpy.invert"}
 
 
+MUTANTS = [
+    ("origin 1 for numpy indices", "AegeanTools/MIMAS.py",
+     "ra, dec = wcs.wcs_pix2world(indexes, 0).transpose()",
+     "ra, dec = wcs.wcs_pix2world(indexes, 1).transpose()", "C10-R1"),
+    ("row first", "AegeanTools/MIMAS.py",
+     "    idx = np.array([(j, 0) for j in range(data.shape[1])])\n    j = "
+     "data.shape[1]\n    for i in range(data.shape[0]):\n        idx[:, 1] = "
+     "i\n",
+     "    idx = np.array([(0, j) for j in range(data.shape[1])])\n    j = "
+     "data.shape[1]\n    for i in range(data.shape[0]):\n        idx[:, 0] = "
+     "i\n", "C10-R1"),
+    ("radians assumed", "AegeanTools/MIMAS.py",
+     "bigmask = region.sky_within(ra, dec, degin=True)",
+     "bigmask = region.sky_within(ra, dec)", "C10-R1"),
+    ("polarity inverted", "AegeanTools/MIMAS.py",
+     "    if not negate:\n        bigmask = np.bitwise_not(bigmask)",
+     "    if negate:\n        bigmask = np.bitwise_not(bigmask)", "C10-R2"),
+    ("table polarity", "AegeanTools/MIMAS.py",
+     "    if not negate:\n        mask = np.bitwise_not(inside)\n    else:\n"
+     "        mask = inside",
+     "    if negate:\n        mask = np.bitwise_not(inside)\n    else:\n"
+     "        mask = inside", "C10-R2"),
+    ("zero outside pixels", "AegeanTools/MIMAS.py",
+     "    data[bigmask] = np.nan\n    return data",
+     "    data[bigmask] = np.nan\n    data[~bigmask] *= 1.0\n    return "
+     "data", "C10-R3"),
+    ("cube drops negate", "AegeanTools/MIMAS.py",
+     "mask_plane(data[plane], wcs, region, negate)",
+     "mask_plane(data[plane], wcs, region)", "C10-R4"),
+    ("cube masks first plane only", "AegeanTools/MIMAS.py",
+     "mask_plane(data[plane], wcs, region, negate)",
+     "mask_plane(data[0], wcs, region, negate)", "C10-R4"),
+    ("removed numpy symbol", "AegeanTools/regions.py",
+     "result = np.isin(pix, list(pixelset))",
+     "result = np.in1d(pix, list(pixelset))", "C10-R5"),
+    ("empty table", "AegeanTools/regions.py",
+     "sky = np.array(list(zip(ra, dec))).reshape(-1, 2)",
+     "sky = np.array(list(zip(ra, dec)))", "C10-R6"),
+]
+TWINS = [
+    ("tilde instead of bitwise_not", "AegeanTools/MIMAS.py",
+     "    if not negate:\n        bigmask = np.bitwise_not(bigmask)",
+     "    if not negate:\n        bigmask = ~bigmask"),
+]
+
+
+
 def polarity(fnode, negate_value, source_is):
     """+1: true where inside the region, -1: true where outside.
     Returns {name: polarity} at the end of the function body, following the
